@@ -25,6 +25,27 @@ func mapKeyLess(a, b reflect.Value) bool {
 	if a.Kind() != b.Kind() {
 		return a.Kind() < b.Kind()
 	}
+	if c := compareKeyValues(a, b); c != 0 {
+		return c < 0
+	}
+	// equal values of different types (two distinct keys of a map[any]T, such as "a" and Title("a")): the type
+	// decides, so that the order is total and the same in every run
+	return a.Type().String() < b.Type().String()
+}
+
+// compareKeyValues orders two keys of the same kind by value: -1, 0 or +1.
+func compareKeyValues(a, b reflect.Value) int {
+	less := func(x, y reflect.Value) bool { return keyValueLess(x, y) }
+	switch {
+	case less(a, b):
+		return -1
+	case less(b, a):
+		return 1
+	}
+	return 0
+}
+
+func keyValueLess(a, b reflect.Value) bool {
 	switch a.Kind() {
 	case reflect.String:
 		return a.String() < b.String()
